@@ -106,6 +106,7 @@ def run(res, tier, seed):
             plans.append((fmt, n, rng.choice([0.2, 0.3, 0.39]), "block-offset", "plain"))
             plans.append((fmt, n, rng.choice([0.05, 0.2]), "year-only", "plain"))
             plans.append((fmt, n, 0.01, "last-day", "plain"))
+            plans.append((fmt, n, rng.choice([0.1, 0.3]), "block-offset", "day366"))
         if l1b.FMT[fmt]["res"] == "gac":   # a long pass: the offset estimate must survive a wrong block of more than 500 lines
             plans.append((fmt, 2600, rng.choice([0.25, 0.3, 0.38]), "block-offset", "plain"))
     coq = []
@@ -129,7 +130,10 @@ def run(res, tier, seed):
             p = dict(fmt=fmt, nums=nums, rec=tg.recorded_ms(fmt, nums, wit["start"]), header=wit["header"], start=wit["start"],
                      kind="witness", reading="line1", gaps=[(62, 1), (1, 2)])
         else:
-            p = tg.clean_pass(rng, fmt, n, kind)
+            p = tg.clean_pass(rng, fmt, n, "plain" if kind == "day366" else kind)
+            if kind == "day366":     # the whole pass on 31 December of a leap year (day of year 366 in header and lines)
+                st = tg.ms_of(datetime.datetime(2004 if l1b.FMT[fmt]["family"] == "klm" else 1996, 12, 31, rng.randrange(1, 20), 0, 0)) + rng.randrange(1000)
+                p = dict(p, start=st, rec=tg.recorded_ms(fmt, p["nums"], st), header=tg.header_ms(fmt, p["nums"], st, "line1"), reading="line1")
         if p["reading"] != "line1":
             p["header"] = tg.header_ms(fmt, p["nums"], p["start"], "line1")
             p["reading"] = "line1"
